@@ -209,7 +209,9 @@ def _run_shard(args):
     stats = Stats(legname)
     known = _known_for(mod)
     try:
-        if leg.enum is not None:
+        if getattr(leg, "machine", None) is not None:
+            _run_machine(leg, stats, tier, seed, shard, nshards, n)
+        elif leg.enum is not None:
             ctx = Ctx(tier, seed, shard, nshards, n)
             for case in leg.enum(ctx):
                 problem = run_one(leg, case, stats, known)
@@ -256,6 +258,47 @@ def _run_hyp(leg, stats, known, tier, seed, shard, nshards, n):
             raise
         if stats.failure is None and stats.harness_error is None:
             stats.harness_error = traceback.format_exc()
+
+
+def _run_machine(leg, stats, tier, seed, shard, nshards, n):
+    """Rule-based state machine leg.  The machine class logs plain step lists (class attributes BEST / COLLECT),
+    so that a failure becomes a {"steps": [...]} case that leg.check replays without Hypothesis."""
+    import hypothesis
+    from hypothesis import HealthCheck, Phase, settings
+    from hypothesis.stateful import run_state_machine_as_test
+
+    M = leg.machine
+    M.BEST, M.T_FAIL, M.COLLECT = None, None, []
+    M.BUDGET = 25.0 if tier == "quick" else 120.0
+    per = max(1, (n + nshards - 1) // nshards)
+    steps = leg.steps_quick if tier == "quick" else leg.steps_thorough
+    legidx = sum(ord(c) for c in leg.name) % 997
+    cls = hypothesis.seed(seed * 1000003 + shard * 1009 + legidx)(M)
+    try:
+        run_state_machine_as_test(cls, settings=settings(max_examples=per, stateful_step_count=steps, database=None, deadline=None,
+                                                         derandomize=False, report_multiple_bugs=False, print_blob=False,
+                                                         suppress_health_check=list(HealthCheck), phases=[Phase.generate, Phase.shrink]))
+    except BaseException as e:  # noqa
+        if isinstance(e, (KeyboardInterrupt, SystemExit)):
+            raise
+        if M.BEST is not None:
+            stats.failure = {"case": {"steps": M.BEST[0]}, "problem": M.BEST[1]}
+        elif _from_pymodes(e.__traceback__):
+            stats.failure = {"case": {"steps": []}, "problem": "unexpected %s escaped from pyModeS: %s" % (type(e).__name__, e)}
+        else:
+            stats.harness_error = traceback.format_exc()
+    for h, st_, nac in M.COLLECT:
+        stats.cases += 1
+        stats.evaluations += max(1, st_.get("flush", 0))
+        nt = bool(st_.get("ref") and (st_.get("evict") or st_.get("merge") or st_.get("cross"))) or st_.get("ref", 0) > 3
+        for k in ("evict", "merge", "cross", "ref"):
+            if st_.get(k):
+                stats.classes["with-" + k] += 1
+        stats.classes["aircraft:%d" % nac] += 1
+        if nt:
+            stats.nt_hashes.add(h)
+            if len(stats.samples) < 2:
+                stats.samples.append({"leg": leg.name, "case": {"stats": st_, "aircraft": nac}, "classes": []})
 
 
 def generic_shrink(leg, case, known):
@@ -319,7 +362,7 @@ def run_check(modname, tier, seed, only_legs=None):
         n = leg.quick if tier == "quick" else leg.thorough
         ns = (leg.shards_quick if tier == "quick" else leg.shards_thorough)
         if ns is None:
-            if leg.enum is not None:
+            if leg.enum is not None or getattr(leg, "machine", None) is not None:
                 ns = NPROC
             else:
                 ns = max(1, min(NPROC, n // 300))
@@ -406,7 +449,7 @@ def build_evidence(mod, per_leg, tier, seed, wall, nviol, known_info):
             continue
         s = per_leg[l.name]
         legs[l.name] = {
-            "engine": "enumeration" if l.enum is not None else "hypothesis",
+            "engine": "stateful-hypothesis" if getattr(l, "machine", None) is not None else ("enumeration" if l.enum is not None else "hypothesis"),
             "exhaustive": bool(l.exhaustive),
             "doc": l.doc,
             "evaluations": s.evaluations,
